@@ -21,6 +21,9 @@ _NAMES = ["shuffle", "choice", "choices", "randrange", "randint", "random", "uni
 
 
 def _call(ctx, fn):
+    flt = getattr(ctx, "rng_filter", None)
+    if flt is not None:
+        flt(fn)  # a harness may end the path at a primitive it cannot reason about (recorded as a cut, never as a pass)
     k = len(ctx.rng_log)
     return k, f"rng{k}.{fn}"
 
@@ -172,19 +175,33 @@ def sample(population, k, *, counts=None):
     ctx.draw(1)
     if not 0 <= k <= n:
         raise ValueError("Sample larger than population or is negative")
+    pre = getattr(ctx, "shuffle_concrete", None)
+    if pre is not None and k == n and n > 1:
+        rec = {"fn": "sample", "call": c, "n": n, "k": k, "population": population, "orig": population, "idx": [], "perm": [], "names": [], "result": population}
+        perm = pre(ctx, population, rec)  # full-length sample = shuffle: harness-declared concrete ordering for very long lists
+        if perm is not None:
+            out = [population[j] for j in perm]
+            rec["idx"] = rec["perm"] = list(perm)
+            rec["result"] = out
+            ctx.rng_log.append(rec)
+            return out
     names = [f"{stem}.i{j}" for j in range(k)]
     idxs = [ctx.int(nm, 0, n - 1) for nm in names]
+    policy = getattr(ctx, "shuffle_policy", None)
     if ctx.mode == "sym" and k > 1:
         ctx.assume_raw(z3.Distinct(*[p.e for p in idxs]))
     elif ctx.mode == "conc" and len(set(idxs)) != len(idxs):
         from .core import PathAbort
 
         raise PathAbort("precondition false")
+    rec = {"fn": "sample", "call": c, "n": n, "k": k, "population": population, "orig": population, "idx": idxs, "perm": idxs, "names": names}
+    if policy is not None and ctx.mode == "sym" and k == n and n > 1:
+        policy(ctx, population, idxs, rec)  # same harness-declared reduction of the permutation space as for shuffle
     out = [select(population, i) for i in idxs]
     if ctx.mode == "conc":
         out = [Tagged(v) if type(v) is int else v for v in out]
-    ctx.rng_log.append({"fn": "sample", "call": c, "n": n, "k": k, "population": population, "orig": population, "idx": idxs, "perm": idxs,
-                        "names": names, "result": out})
+    rec["result"] = out
+    ctx.rng_log.append(rec)
     return out
 
 
